@@ -1066,9 +1066,40 @@ def _creates_values(p, s, t):
     return False
 
 
+def _fresh_names_shared_between_scopes(case):
+    """Semantic form of the finding: convert the stored model and look for a tape-builder name (val_<k>) that is defined both in a
+    subgraph and in one of the graphs enclosing it."""
+    import re
+
+    try:
+        model = optcommon.model_from_json(case["model"])
+        after = convert(model, case["s"], case["t"], case["entry"], case.get("fallback"), case.get("versions"))["after"]
+    except Exception:  # noqa: BLE001
+        return False
+    if after is None:
+        return False
+
+    def walk(g, outer):
+        here = {x for n in g.node for x in n.output if re.fullmatch(r"val_\d+", x)}
+        if here & outer:
+            return True
+        for n in g.node:
+            for at in n.attribute:
+                if at.type == onnx.AttributeProto.GRAPH and walk(at.g, outer | here):
+                    return True
+                for sg in at.graphs:
+                    if walk(sg, outer | here):
+                        return True
+        return False
+
+    return walk(after.graph, set())
+
+
 def _region_fresh_names(case):
     import re
 
+    if _fresh_names_shared_between_scopes(case):
+        return True
     s, t, plants = case["s"], case["t"], case.get("plants", [])
     for i, p in enumerate(plants):
         if p.get("placement") in ("if", "loop") and _creates_values(p, s, t):
